@@ -128,3 +128,5 @@ func init() {
 }
 
 func init() { prop("C06", "C07-R1") }
+
+func init() { prop("C13", "C13-R7") }
